@@ -197,6 +197,13 @@ def expected_density(f, dens, keys, tbl):
 
 
 def oracle_accepts(f, want, tbl):
+    try:
+        return _oracle_accepts(f, want, tbl)
+    except Exception as e:  # noqa  (an atom the table cannot serve, …)
+        return ["the parsed formula cannot be evaluated: %s: %s" % (type(e).__name__, e)]
+
+
+def _oracle_accepts(f, want, tbl):
     """the property on the real Formula `f` against the documented reading `want` =
     (atoms, charge, density); returns a list of failures"""
     atoms, charge, dens = want
@@ -205,16 +212,42 @@ def oracle_accepts(f, want, tbl):
     for k in set(atoms) | set(got):
         if not close(float(atoms.get(k, 0)), float(got.get(k, 0)), rel=1e-9, abs_=1e-300):
             bad.append("count of %s: documented reading %s, parsed %r" % (k, atoms.get(k, 0), got.get(k, 0)))
-    if not close(float(charge), float(f.charge), rel=1e-9, abs_=1e-9):
+    # the charge is a sum with cancellation: tolerance relative to the sum of magnitudes (DESIGN 4.5)
+    scale = float(sum((abs(c * k[2]) for k, c in atoms.items()), Fraction(0)))
+    if not close(float(charge), float(f.charge), rel=1e-9, abs_=1e-9 * (1 + scale)):
         bad.append("charge: documented reading %s, parsed %r" % (charge, f.charge))
     ok, w = expected_density(f, dens, set(atoms), tbl)
     if not ok:
         bad.append("density: documented reading %r, parsed %r" % (w, f.density))
-    for a in f.atoms:
-        if a is not G.atom_of(G.key_of(a), tbl):
-            bad.append("atom %r of the parsed formula is not the atom of the table the string was parsed with" % (a,))
-            break
+    bad += atoms_in_table(f, tbl)
     return bad
+
+
+def atoms_in_table(f, tbl, ref=None):
+    """every atom of a parsed formula is an atom *of the table it was parsed with* (identity), and –
+    when the reference table is given – one the table defines (isotope and charge listed)"""
+    bad = []
+    for a in f.atoms:
+        k = G.key_of(a)
+        try:
+            same = a is G.atom_of(k, tbl)
+        except Exception as e:  # noqa
+            bad.append("atom %s of the parsed formula is not defined in the table (%s: %s)" % (k, type(e).__name__, e))
+            continue
+        if not same:
+            bad.append("atom %s of the parsed formula is not the atom of the table the string was parsed with" % (k,))
+        if ref is not None:
+            e = [v for v in ref.values() if v["z"] == k[0] and not v["alias"]]
+            if not e or (k[1] and k[1] not in e[0]["isos"]) or (k[2] and k[2] not in e[0]["ions"]):
+                bad.append("atom %s of the parsed formula is not defined in the table" % (k,))
+    return bad
+
+
+def total_count(items, mult=Fraction(1)):
+    t = Fraction(0)
+    for c, f in items:
+        t += mult * c if G.is_key(f) else total_count(f, mult * c)
+    return t
 
 
 class Checker:
@@ -233,9 +266,17 @@ class Checker:
             if tree is not None:
                 lines.append(G.encode_deriv(tree))
         replies = iter(G.driver(lines)[len(self.prefix):])
-        for (stream, s, info, tree) in cases:
+        other = tables("private" if self.tname == "public" else "public")[1]
+        for idx, (stream, s, info, tree) in enumerate(cases):
             m = G.parse_reply(next(replies))
             spec = G.parse_deriv_reply(next(replies)) if tree is not None else None
+            if idx % 23 == 0:
+                # the same string with the other table in between: one grammar per table (_PARSER_CACHE)
+                po = G.py_parse(s, other)
+                if po[0] == "OK":
+                    for b in atoms_in_table(po[2], other):
+                        run.violation(b, dict(table="other-than-" + self.tname, string=s, stream=stream),
+                                      kind="wrong-table")
             p = G.py_parse(s, self.tbl)
             inp = dict(table=self.tname, string=s, stream=stream)
             tag = "%s:%s:%s" % (self.tname, stream, "accepted" if p[0] == "OK" else "rejected")
@@ -250,7 +291,10 @@ class Checker:
                 else:
                     for b in oracle_accepts(p[2], info[0], self.tbl):
                         run.violation(b, inp, kind="wrong-composition")
-            elif stream in ("malformed", "neighbour"):
+            if p[0] == "OK" and stream != "accepted":
+                for b in atoms_in_table(p[2], self.tbl, self.ref):
+                    run.violation(b, inp, kind="undefined-atom")
+            if stream in ("malformed", "neighbour"):
                 if p[0] == "OK":
                     run.violation("malformed string (%s) yields a formula %s" % (info, G.show_struct(p[1])), inp,
                                   kind="malformed-accepted", malformation=info)
@@ -276,6 +320,12 @@ class Checker:
             elif m[0] == "OK" or p[0] == "OK":
                 if m[0] == "FAIL" and p[0] == "OK" and G.maybe_mixture(s):
                     self.mixture_escapes += 1
+                elif m[0] == "OK" and m[2] is not None and m[2][0] == "n" and p[1] == "ZeroDivisionError" \
+                        and total_count(m[1]) == 0:
+                    # '@…n' on a formula whose counts are all zero: natural_mass_ratio divides by the
+                    # zero mass.  Counts are positive in the property's quantifier; not modelled.
+                    run.dist["zero-mass natural density (skipped)"] = run.dist.get("zero-mass natural density (skipped)", 0) + 1
+                    continue
                 else:
                     agree = False
             elif m[0] != p[0]:
@@ -341,13 +391,33 @@ def sweep_cases(rng, ref, full):
     return ok, bad
 
 
-def run_table(run: Run, tname, ref, tbl, prefix, n_acc, n_mal, n_nasty, maxdepth, full_sweep):
+_TABLES = {}
+
+
+def tables(tname):
+    """(reference table, runtime table, driver prefix) – set up once in the parent, shared by fork"""
+    if tname not in _TABLES:
+        pt = import_repo()
+        ref = G.ref_table()
+        if tname == "public":
+            _TABLES[tname] = (ref, pt.elements, ["tblgen"])
+        else:
+            alt = G.altered_table(ref)
+            _TABLES[tname] = (alt, G.private_python_table(alt), G.table_lines(alt))
+    return _TABLES[tname]
+
+
+def run_chunk(run: Run, tname, n_acc, n_mal, n_nasty, maxdepth, sweep):
+    """one chunk of the correspondence; `sweep` = None | 'sample' | 'full' adds the exhaustive atom sweep"""
+    ref, tbl, prefix = tables(tname)
     rng = run.rng
     ck = Checker(run, tname, ref, tbl, prefix)
+    cases = []
     # (0) exhaustive atoms and invalid neighbours
-    ok, bad = sweep_cases(rng, ref, full_sweep)
-    cases = [("accepted", t, (({k: Fraction(1)}, Fraction(k[2]), None), {"atom"}), None) for t, k in ok]
-    cases += [("neighbour", t, what, None) for t, what in bad]
+    if sweep:
+        ok, bad = sweep_cases(rng, ref, sweep == "full")
+        cases += [("accepted", t, (({k: Fraction(1)}, Fraction(k[2]), None), {"atom"}), None) for t, k in ok]
+        cases += [("neighbour", t, what, None) for t, what in bad]
     # (1) accepted stream
     for _ in range(n_acc):
         d = G.gen_compound(rng, ref, maxdepth=maxdepth, pb=rng.choice([0.0, 0.05, 0.2]))
@@ -390,7 +460,6 @@ def run_table(run: Run, tname, ref, tbl, prefix, n_acc, n_mal, n_nasty, maxdepth
     run.dist["%s:derivations-sent-to-the-Lean-spec" % tname] = sum(1 for c in cases if c[3] is not None)
     run.dist["%s:kind-mismatch(both reject)" % tname] = ck.kind_mismatch
     run.dist["%s:mixture-escape(skipped)" % tname] = ck.mixture_escapes
-    return ck
 
 
 def table_sweep(run: Run, ref, pt):
@@ -411,14 +480,16 @@ def run(run: Run) -> int:
     run.prove(generated=["ElementBase", "IsotopeList"])
     ref = G.ref_table()
     table_sweep(run, ref, pt)
+    tables("public")
+    tables("private")
     quick = run.tier == "quick"
-    n_acc, n_mal, n_nasty = (2200, 900, 1500) if quick else (120000, 50000, 100000)
-    run_table(run, "public", ref, pt.elements, ["tblgen"], n_acc, n_mal, n_nasty,
-              maxdepth=4 if quick else 7, full_sweep=not quick)
-    alt = G.altered_table(ref)
-    priv = G.private_python_table(alt)
-    run_table(run, "private", alt, priv, G.table_lines(alt), n_acc // 4, n_mal // 4, n_nasty // 4,
-              maxdepth=4, full_sweep=False)
+    if quick:
+        tasks = [(run_chunk, ("public", 550, 225, 375, 4, "sample" if i == 0 else None)) for i in range(4)]
+        tasks += [(run_chunk, ("private", 275, 110, 190, 4, "sample" if i == 0 else None)) for i in range(2)]
+    else:
+        tasks = [(run_chunk, ("public", 5000, 2000, 4000, 4 + i % 4, "full" if i == 0 else None)) for i in range(60)]
+        tasks += [(run_chunk, ("private", 4000, 1600, 3000, 4 + i % 3, "full" if i == 0 else None)) for i in range(16)]
+    G.run_chunks(run, tasks)
     run.exhaustive = False
     return run.finish(RULE, assumptions=[
         "pyparsing's combinator semantics are modelled (Model/Grammar.lean), not verified",
@@ -439,12 +510,7 @@ def replay(data) -> int:
         if (s, tname) in seen:
             continue
         seen.add((s, tname))
-        if tname == "private":
-            r = G.altered_table(ref)
-            tbl = G.private_python_table(r)
-            prefix = G.table_lines(r)
-        else:
-            r, tbl, prefix = ref, pt.elements, ["tblgen"]
+        r, tbl, prefix = tables(tname)
         p = G.py_parse(s, tbl)
         m = G.parse_reply(G.driver(prefix + ["parse %s" % G.enc(s)])[-1])
         try:
